@@ -215,12 +215,13 @@ pub fn profile(mode_kind: u8) -> Profile {
 pub fn gen_coop_case(tape: &[u32], which: &str) -> CoopCase {
     let mut t = Tape::new(tape);
     // C19 (b): a mix of the four generators
-    let which = if which == "C19" { ["C20", "C21", "C14", "C22"][t.pick(4) as usize] } else { which };
+    let from_c19 = which == "C19";
+    let which = if which == "C19" { ["C20", "C21", "C21", "C14", "C22"][t.pick(5) as usize] } else { which };
     let lattice = match which {
         "C14" => true,
         _ => t.chance(2, 5),
     };
-    let plain_cycles = which == "C21" && lattice && t.chance(1, 3);
+    let plain_cycles = which == "C21" && lattice && t.chance(if from_c19 { 2 } else { 1 }, 3);
     let pf = if which == "C14" || plain_cycles {
         profile(2)
     } else if lattice {
@@ -311,6 +312,7 @@ pub struct CoopRun {
     pub proto_blocks: u64,
     pub proto_transfers: u64,
     pub proto_nested: u64,
+    pub proto_failed_in_span: u64,
     pub proto_bad_wakes: u64,
 }
 
@@ -608,6 +610,7 @@ pub fn run_parallel(case: &CoopCase, world: Arc<Mutex<World>>, fault_at: Option<
         proto_blocks: proto.blocks,
         proto_transfers: proto.transfers,
         proto_nested: proto.nested_releases,
+        proto_failed_in_span: proto.failed_wakes_in_span,
         proto_bad_wakes: proto.wakes_not_completed,
     }
 }
@@ -991,6 +994,7 @@ pub fn run_coop_case(which: &str, case: &CoopCase) -> SeqOutcome {
     outc.counters.push(("protocol_blocks", run.proto_blocks));
     outc.counters.push(("protocol_transfers", run.proto_transfers));
     outc.counters.push(("protocol_nested_handover_releases", run.proto_nested));
+    outc.counters.push(("protocol_failed_wakes_while_owner_in_cycle_span", run.proto_failed_in_span));
     outc.counters.push(("protocol_wakes_not_completed", run.proto_bad_wakes));
     if run.proto_bad_wakes > 0 {
         outc.labels.push("wake-with-panic-or-cancel");
